@@ -105,6 +105,24 @@ def cases(tier, seed):
             for solver in solvers_b:
                 out.append({'dt': dt, 'dts': dts, 'T': T, 'cutoff': 0.0, 'cut': 'zero', 'model': 'rot', 'solver': solver,
                             'method': None, 'backend': backend, 'vectorize': backend != 'default', 'decimal': True})
+    # T that is NOT a multiple of the sampling step (the property constrains only dts/dt): round(T/dts) rows, row k at
+    # time k*dts. T = dts*n + j*dt for every remainder j; fixed-step solvers of every backend, adaptive on the default one
+    for backend, solvers_b in (('default', ('euler', 'heun', 'scipy')), ('torch', ('euler',)), ('jax', ('euler', 'heun')),
+                               ('fortran', ('euler',))):
+        if tier == 'quick' and backend == 'fortran':
+            continue
+        for model in (('decay', 'inp', 'nonlin') if backend == 'default' else ('inp',)):
+            for mult in (2, 3, 5):
+                for n in ((2, 4) if tier == 'quick' else (1, 2, 3, 4)):
+                    for j in range(1, mult):
+                        for solver in solvers_b:
+                            if solver == 'scipy' and model != 'decay':
+                                continue
+                            dt = 0.0625
+                            out.append({'dt': dt, 'dts': dt * mult, 'T': dt * (mult * n + j), 'cutoff': 0.0, 'cut': 'zero',
+                                        'model': model, 'solver': solver, 'method': 'RK45' if solver == 'scipy' else None,
+                                        'backend': backend, 'vectorize': backend not in ('default', 'fortran'),
+                                        'ragged_T': True})
     # adaptive solvers against closed forms (incl. the time-dependent model)
     for model in ('decay', 'rot', 'edge', 'tdep', 'inp'):
         for method in ('RK45', 'DOP853', 'Radau') if tier != 'quick' else ('RK45', 'DOP853'):
@@ -245,7 +263,7 @@ def run_case(case):
         tol = 1e-9 if (case['backend'] == 'default' and not case.get('decimal')) else 1e-7
         for key, path in paths.items():
             pos = C.position(path)[0]
-            exp = rows[:, pos][keep]
+            exp = rows[:n_rows, pos][keep]
             got = np.asarray(df[key], dtype=float)
             if got.shape != exp.shape or (len(exp) and np.max(np.abs(got - exp)) > tol * max(1.0, np.max(np.abs(exp)))):
                 return viol('trajectory', var=key, got=got.tolist()[:8], expected=exp.tolist()[:8])
